@@ -184,3 +184,45 @@ theorem mem_dif (l r : List Nat) (hl : SSorted l) (hr : SSorted r) (x : Nat) :
       · exact ⟨h1, fun h => h2 (Or.inr h)⟩
 
 end Catii.Kern
+
+namespace Catii.Kern
+/-- strictly increasing lists are determined by their members -/
+theorem ssorted_ext : ∀ (l1 l2 : List Nat), SSorted l1 → SSorted l2 → (∀ x, x ∈ l1 ↔ x ∈ l2) → l1 = l2 := by
+  intro l1
+  induction l1 with
+  | nil =>
+    intro l2 _ _ h
+    cases l2 with
+    | nil => rfl
+    | cons b bs => exact absurd ((h b).mpr List.mem_cons_self) (by simp)
+  | cons a as ih =>
+    intro l2 h1 h2 h
+    cases l2 with
+    | nil => exact absurd ((h a).mp List.mem_cons_self) (by simp)
+    | cons b bs =>
+      have ha := (List.pairwise_cons.mp h1)
+      have hb := (List.pairwise_cons.mp h2)
+      have hab : a = b := by
+        have m1 := (h a).mp List.mem_cons_self
+        have m2 := (h b).mpr List.mem_cons_self
+        rcases List.mem_cons.mp m1 with e | e
+        · exact e
+        · rcases List.mem_cons.mp m2 with e' | e'
+          · exact e'.symm
+          · have := hb.1 a e; have := ha.1 b e'; omega
+      subst hab
+      congr 1
+      apply ih bs ha.2 hb.2
+      intro x
+      constructor
+      · intro hx
+        have := (h x).mp (List.mem_cons_of_mem _ hx)
+        rcases List.mem_cons.mp this with e | e
+        · have := ha.1 x hx; omega
+        · exact e
+      · intro hx
+        have := (h x).mpr (List.mem_cons_of_mem _ hx)
+        rcases List.mem_cons.mp this with e | e
+        · have := hb.1 x hx; omega
+        · exact e
+end Catii.Kern
